@@ -535,6 +535,67 @@ def stepout_pushed_session(sched):
         ses.close()
 
 
+PIPELINED = ('.test "a" {\n    ldy #0\nl:\n    jsr delay\n    iny\n    jmp l\ndelay:\n    ldx #200\nd:\n    dex\n    bne d\n    rts\n}\n')
+# lines: jsr delay = 4, iny = 5, jmp l = 6
+
+
+def pipelined_steps_session(job):
+    """A client that does not wait for the answer to one step request before it sends the next (a key held down): every request is
+    answered, and when the burst is over the machine is where that many steps lead. Three `next` are one round of the loop."""
+    n_steps, sched = job
+    out = {"violations": [], "inconclusive": [], "counts": {}, "cover": {"pipelined-step-requests"}, "sample": None, "evaluations": 1}
+    ses = Session(PIPELINED, sched, trace=False)
+    try:
+        r = ses.start([4])
+        if not isinstance(r, dict) or not r.get("success") or ses.wait_stop(10) != "stopped":
+            out["inconclusive"].append("pipelined-steps session did not start")
+            return out
+        seqs = [ses.dap.send("next", {"threadId": 1}) for _ in range(n_steps)]
+        last = ses.dap.wait_response(seqs[-1], 60)
+        if not isinstance(last, dict) or "success" not in last:
+            # judged by the state of the process, not by the watchdog: a server whose threads all sleep will never answer
+            state = threads_all_sleeping(ses.srv.p.pid)
+            if state:
+                out["violations"].append(("no-response|next|pipelined-burst", "%d pipelined `next` requests: the last one was never answered and every thread of the server is asleep" % n_steps,
+                                          {"source": PIPELINED, "requests": n_steps, "sched": sched}))
+            else:
+                out["inconclusive"].append("pipelined burst: no answer to the last request yet, server still computing")
+            return out
+        time.sleep(0.05)
+        snap = ses.snapshot()
+        out["evaluations"] += 1
+        if snap is None:
+            out["violations"].append(("no-response|snapshot|pipelined-burst", "stackTrace/variables not answered after %d pipelined steps" % n_steps, {"source": PIPELINED}))
+            return out
+        want_line = [4, 5, 6][n_steps % 3]
+        want_y = (n_steps // 3 + (1 if n_steps % 3 == 2 else 0)) & 255
+        if snap["line"] != want_line or snap["Y"] != want_y:
+            out["violations"].append(("step-wrong|pipelined-burst", "after %d pipelined `next` requests the machine must be at line %d with Y=%d; the debugger shows line %s with Y=%s" % (
+                n_steps, want_line, want_y, snap["line"], snap["Y"]), {"source": PIPELINED, "snapshot": snap, "sched": sched}))
+            return out
+        out["counts"]["pipelined_steps_answered"] = n_steps
+        return out
+    finally:
+        ses.close()
+
+
+def threads_all_sleeping(pid):
+    """True when two samples of /proc one second apart show every thread sleeping with no CPU time consumed in between."""
+    def sample():
+        res = []
+        try:
+            for tid in os.listdir("/proc/%d/task" % pid):
+                f = open("/proc/%d/task/%s/stat" % (pid, tid)).read().rsplit(")", 1)[1].split()
+                res.append((tid, f[0], int(f[11]) + int(f[12])))
+        except OSError:
+            return None
+        return sorted(res)
+    a = sample()
+    time.sleep(1.0)
+    b = sample()
+    return a is not None and a == b and all(t[1] in "SD" for t in b)
+
+
 def segment_walk_program(rng):
     """A test whose code lies in three blocks of two or three segments, written in a random order at random addresses: the bytes
     are not emitted in ascending address order. Returns (source, [(line, X, Y) at every instruction boundary of the run])."""
@@ -626,6 +687,11 @@ def main(tier, seed):
         for w, o in zip(walks, ex.map(segment_walk_session, walks)):
             jobs.append(("segment-walk-%d" % w[0], False, w[1], "witness"))
             results.append(o)
+    bursts = [(rng.choice([3000, 3001, 3002, 4500, 6000]), [None, "%d,50" % rng.randrange(10 ** 6)][k % 2]) for k in range(3 if tier == "quick" else 24)]
+    with ThreadPoolExecutor(max_workers=6) as ex:
+        for b, o in zip(bursts, ex.map(pipelined_steps_session, bursts)):
+            jobs.append(("pipelined-steps-%d" % b[0], False, b[1], "witness"))
+            results.append(o)
     reps = 3 if tier == "quick" else 30
     for k in range(reps):
         sched = [None, "%d,50" % rng.randrange(10 ** 6), "%d,2000" % rng.randrange(10 ** 6)][k % 3]
@@ -661,6 +727,7 @@ def main(tier, seed):
              "first breakpoint line ahead (not later, and not later either when a pause is in flight); steps must land on the "
              "model's successor / return / caller index. Segment walks: a test whose code is spread over blocks of several segments "
              "written in a random order (bytes not emitted in ascending address order) is single-stepped or run from breakpoint to "
-             "breakpoint; frame line, X and Y are known for every stop. Non-trivial = distinct session without inconclusive step.",
+             "breakpoint; frame line, X and Y are known for every stop. Pipelined steps: 3000-6000 `next` requests sent without waiting "
+             "for the answers; every one must be answered and the machine must be where that many steps lead. Non-trivial = distinct session without inconclusive step.",
         assumptions=["cpu6502.py (incl. its cycle table) is the reference; the calibration sessions compare it with the adapter step by step",
                      "programs avoid self-branches; schedule space is sampled, the phases seen are reported"], min_nontrivial=2)
